@@ -22,6 +22,8 @@ BUILD = os.path.join(VERIF, ".build")
 EVID = os.path.join(VERIF, "evidence")
 REPLAYS = os.path.join(VERIF, "replays")
 ALLOWED_AXIOMS = {"propext", "Classical.choice", "Quot.sound"}
+DRIVERS = ["drv_hist"]
+HARNESS_BINS = ["hist"]
 OFFLINE_ENV = {"CARGO_NET_OFFLINE": "true", "GOPROXY": "off", "PIP_NO_INDEX": "1"}
 
 TRUSTED_BASE = [
@@ -183,6 +185,9 @@ class Ctx:
         cov.setdefault("distinct_nontrivial", 0)
         cov.setdefault("rule", "")
         cov.setdefault("samples", [])
+        if isinstance(cov.get("programs"), list):      # schema: `programs` is a count
+            cov["program_names"] = cov["programs"]
+            cov["programs"] = len(cov["program_names"])
         cov["repo_tree"] = self.tree
         cov["known_findings_hit"] = self.known_hits
         cov["notes"] = self.notes
